@@ -46,6 +46,12 @@ type pg struct {
 	loops  int // loop nesting inside the current function
 	infn   int
 	ret1   bool // current function must return a number first
+	cdepth int  // nesting of calls inside argument lists
+	// base: the locals of enclosing functions.  A named function never assigns them: Lua leaves the order of
+	// operand evaluation open, and both Lua 5.1 and this VM read a local operand of `v + f()` only when the
+	// operation executes, i.e. after f ran, so a callee that changes v would make the result depend on that
+	// unspecified order (R-lua evaluates strictly left to right).
+	base pgScope
 }
 
 func (g *pg) r(n int) int {
@@ -314,6 +320,13 @@ func (g *pg) call(f pgFn) string {
 	}
 	if g.va && g.r(5) == 0 && f.va {
 		args = append(args, "...")
+	} else if n >= f.np && g.cdepth < 2 && g.r(4) == 0 {
+		// an open call as the last argument: all its values are passed on (surplus ones dropped by the callee)
+		if f2, ok := g.pickFn(false); ok {
+			g.cdepth++
+			args = append(args, g.call(f2))
+			g.cdepth--
+		}
 	}
 	a := strings.Join(args, ", ")
 	if f.meth {
@@ -356,13 +369,13 @@ func (g *pg) emitStmt(sb *strings.Builder) {
 func (g *pg) target() (string, int, string) {
 	switch g.r(9) {
 	case 0, 1:
-		if len(g.nums) > 0 {
-			n := g.pick(g.nums)
+		if len(g.nums) > g.base.n {
+			n := g.pick(g.nums[g.base.n:])
 			return n, 1, n
 		}
 	case 2:
-		if len(g.anys) > 0 {
-			n := g.pick(g.anys)
+		if len(g.anys) > g.base.a {
+			n := g.pick(g.anys[g.base.a:])
 			return n, 0, n
 		}
 	case 3:
@@ -378,18 +391,18 @@ func (g *pg) target() (string, int, string) {
 			return g.pick(g.tabs) + "[" + g.pick(g.idxs) + "]", 0, "[*]"
 		}
 	case 6:
-		if len(g.idxs) > 0 {
-			n := g.pick(g.idxs)
+		if len(g.idxs) > g.base.i {
+			n := g.pick(g.idxs[g.base.i:])
 			return n, 2, n
 		}
 	case 7:
-		if len(g.strs) > 0 {
-			n := g.pick(g.strs)
+		if len(g.strs) > g.base.s {
+			n := g.pick(g.strs[g.base.s:])
 			return n, 3, n
 		}
 	}
-	if len(g.anys) > 0 {
-		n := g.pick(g.anys)
+	if len(g.anys) > g.base.a {
+		n := g.pick(g.anys[g.base.a:])
 		return n, 0, n
 	}
 	return "g1", 0, "g1"
@@ -410,11 +423,37 @@ func pgClash(seen map[string]bool, key string) bool {
 
 func (g *pg) stmt(sb *strings.Builder) {
 	g.budget--
-	c := g.r(36)
+	c := g.r(38)
 	if g.multi >= 3 && (c >= 15 && c <= 18 || c == 33 || c == 29 || c == 35) {
 		c = 9 // no loop inside three levels of loops / function bodies: programs stay short-running
 	}
 	switch {
+	case c == 36 || c == 37: // a bare relational / not expression stored into an existing or new local
+		rel := ""
+		switch {
+		case g.multi == 0 && g.symc > 0 && g.r(2) == 0:
+			g.symc--
+			rel = g.pick(pgInputs) + " " + pgRel[g.r(len(pgRel))] + " " + []string{"0", "1", "y", "z", "(x + 1)"}[g.r(5)]
+		case len(g.ctrs) > 0:
+			rel = g.pick(g.ctrs) + " " + pgRel[g.r(len(pgRel))] + " " + []string{"1", "2", "3"}[g.r(3)]
+		default:
+			rel = g.lit() + " " + pgRel[g.r(len(pgRel))] + " " + g.lit()
+		}
+		if g.r(4) == 0 && len(g.anys) > 0 {
+			rel = "not " + g.pick(g.anys)
+		}
+		if len(g.anys) > g.base.a && g.r(3) > 0 {
+			v := g.pick(g.anys[g.base.a:])
+			if g.r(3) == 0 && len(g.nums) > g.base.n {
+				sb.WriteString(g.pick(g.nums[g.base.n:]) + ", " + v + " = " + g.num(1) + ", " + rel + "; ")
+			} else {
+				sb.WriteString(v + " = " + rel + "; ")
+			}
+		} else {
+			v := g.fresh("b")
+			sb.WriteString("local " + v + " = " + rel + "; ")
+			g.anys = append(g.anys, v)
+		}
 	case c == 30: // small index local (a concrete table key that assignments may change)
 		k := g.fresh("k")
 		sb.WriteString("local " + k + " = " + []string{"1", "2", "3"}[g.r(3)] + "; ")
@@ -451,8 +490,8 @@ func (g *pg) stmt(sb *strings.Builder) {
 		g.multi--
 		g.leave(sc)
 		sb.WriteString("end; ")
-	case c == 34 && len(g.tabs) > 0 && len(g.idxs) > 0: // index and indexed place change together
-		t, k := g.pick(g.tabs), g.pick(g.idxs)
+	case c == 34 && len(g.tabs) > 0 && len(g.idxs) > g.base.i: // index and indexed place change together
+		t, k := g.pick(g.tabs), g.pick(g.idxs[g.base.i:])
 		if g.r(2) == 0 {
 			sb.WriteString(k + ", " + t + "[" + k + "] = " + []string{"1", "2", "3"}[g.r(3)] + ", " + g.num(1) + "; ")
 		} else {
@@ -746,6 +785,9 @@ func (g *pg) funcDef(sb *strings.Builder) {
 		sb.WriteString("local function " + f.name + "(" + plist + ") ")
 	}
 	sc := g.enter()
+	obase := g.base
+	g.base = sc
+	defer func() { g.base = obase }()
 	if f.meth {
 		g.tabs = append(g.tabs, "self")
 	}
@@ -822,6 +864,7 @@ func H_C01_gen() {
 	if VParam("dump", 0) == 1 {
 		VAbort("SRC: " + src)
 	}
+	diffSoftBound = true
 	diffRun("gen#"+itoa(k)+": "+src, src, c01Inputs("int"), Options{})
 	VReach("end")
 }
